@@ -334,4 +334,135 @@ def ops_unit():
 
 
 def unit(which):
-    return {"encoding": encoding_unit, "ops": ops_unit}[which]()
+    return {"encoding": encoding_unit, "ops": ops_unit, "element": element_unit}[which]()
+
+
+# ----------------------------------------------------------------------------- element traits (C06, C08, C04 sums)
+BUE = "broadcast use fq_abs, fr_abs, to_affine_idem, to_affine_wf, ark_mul_is_smul, arepr_of_aff, repr_of_p4, validity_axioms, le32_axioms;"
+
+ELEMENT_LEMMAS = r"""
+// Hash of a [u8; 32] (core: length prefix, then the bytes): a function of the bytes only
+pub uninterp spec fn hash_prefix32() -> Seq<u8>;
+pub trait HashBytes { spec fn hb(&self) -> Seq<u8>; }
+impl Hash for [u8; 32] {
+    #[verifier::external_body]
+    fn hash<H: Hasher>(&self, state: &mut H)
+        ensures final(state).written() == old(state).written() + hash_prefix32() + self@
+    { unimplemented!() }
+}
+pub open spec fn views_e(s: Seq<Element>) -> Seq<P4> { s.map_values(|x: Element| repr(x.inner)) }
+pub open spec fn views_er(s: Seq<&Element>) -> Seq<P4> { s.map_values(|x: &Element| repr(x.inner)) }
+pub open spec fn views_a(s: Seq<AffinePoint>) -> Seq<P4> { s.map_values(|x: AffinePoint| arepr(x.inner)) }
+pub open spec fn views_ar(s: Seq<&AffinePoint>) -> Seq<P4> { s.map_values(|x: &AffinePoint| arepr(x.inner)) }
+// the trace of a fold with Add from the identity: accs[0] is the identity, each step is the group law
+pub open spec fn sum_trace_e(s: Seq<P4>, accs: Seq<P4>, r: P4) -> bool {
+    accs.len() == s.len() + 1 && accs[0] == id4() && accs[s.len() as int] == r
+    && forall|i: int| 0 <= i < s.len() ==> to_affine(#[trigger] accs[i + 1]) == to_affine(te_add(accs[i], s[i]))
+}
+"""
+
+
+CURVE_LEMMAS_E = CURVE_LEMMAS + r"""
+pub trait Zero: Sized { fn zero() -> Self; fn is_zero(&self) -> bool; }
+impl Zero for Fq {
+    #[verifier::external_body]
+    fn zero() -> (r: Fq) ensures r.val() == 0 { unimplemented!() }       // src/fields/fq/arkworks.rs (unit fieldx_fq)
+    #[verifier::external_body]
+    fn is_zero(&self) -> (r: bool) ensures r == (self.val() == 0) { unimplemented!() }
+}
+impl Element {
+    // value proved by compute in unit `consts` (on curve, [r]G = identity => valid by M-GROUP)
+    #[verifier::external_body]
+    pub exec const GENERATOR: Element ensures repr(Element::GENERATOR.inner) == gen_p4()
+    { Element { inner: EdwardsProjective { x: Fq::dummy_(), y: Fq::dummy_(), t: Fq::dummy_(), z: Fq::dummy_() } } }
+}
+// proved by compute in unit `consts`: gen_p4 is on the curve and [r]gen_p4 = identity (=> valid by M-GROUP)
+pub broadcast axiom fn gen_valid() ensures #[trigger] valid(gen_p4());
+"""
+
+
+def element_unit():
+    fq = field_params("fq")
+    stubs, lem = fq_field_stubs()
+    items = list(stubs) + conv_items_stub()
+    items.append(Item(ENC, "impl Element", [Fn("vartime_compress", ensures="r.0 == le32(spec_encode(repr(self.inner))), r.0@[31] < 32")],
+                      mode="stub", proved_in="ark_encoding"))
+    # Add impls used by the Sum folds, as stubs (proved in ark_ops)
+    ops_stub = [dataclasses.replace(it, mode="stub", proved_in="ark_ops",
+                                    fns=[dataclasses.replace(f, preamble="") for f in it.fns])
+                for it in op_items(OPS_P) + op_items(OPS_A)
+                if _re.search(r'\bAdd<', it.header) and "for Element" in it.header]
+    items += ops_stub
+    P_ = ELEM_P
+    items.append(Item(P_, "impl Element", [Fn("IDENTITY", as_const=True, ensures="repr(Element::IDENTITY.inner) == id4()", props=("C06",))]))
+    items.append(Item(P_, "impl Hash for Element", [Fn("hash", props=("C08",), preamble=BUE,
+                      ensures="final(state).written() == old(state).written() + hash_prefix32() + le32(spec_encode(repr(self.inner)))@")]))
+    items.append(Item(P_, "impl Default for Element", [Fn("default", ensures="repr(r.inner) == id4()", props=("C06", "C08"), preamble=BUE)]))
+    pre = """impl PartialEqSpecImpl<Element> for Element {
+    open spec fn obeys_eq_spec() -> bool { true }
+    open spec fn eq_spec(&self, other: &Element) -> bool { spec_eq(repr(self.inner), repr(other.inner)) }
+}"""
+    items.append(Item(P_, "impl PartialEq for Element", [Fn("eq", props=("C08",), preamble=BUE, attrs=R12)], pre=pre))
+    items.append(Item(P_, "impl Element", [Fn("is_identity", ensures="r == spec_is_identity(repr(self.inner))", props=("C08",), preamble=BUE)]))
+    items.append(Item(P_, "impl Zero for Element", [
+        Fn("zero", ensures="repr(r.inner) == id4()", props=("C06", "C08"), preamble=BUE),
+        Fn("is_zero", ensures="r == spec_is_identity(repr(self.inner))", props=("C08",), preamble=BUE)]))
+    A_ = ELEM_A
+    items.append(Item(A_, "impl Hash for AffinePoint", [Fn("hash", props=("C08",), preamble=BUE,
+                      ensures="final(state).written() == old(state).written() + hash_prefix32() + le32(spec_encode(arepr(self.inner)))@")]))
+    items.append(Item(A_, "impl Default for AffinePoint", [Fn("default", ensures="arepr(r.inner) == id4()", props=("C06", "C08"), preamble=BUE)]))
+    pre = """impl PartialEqSpecImpl<AffinePoint> for AffinePoint {
+    open spec fn obeys_eq_spec() -> bool { true }
+    open spec fn eq_spec(&self, other: &AffinePoint) -> bool { spec_eq(arepr(self.inner), arepr(other.inner)) }
+}"""
+    items.append(Item(A_, "impl PartialEq for AffinePoint", [Fn("eq", props=("C08",), preamble=BUE, attrs=R12)], pre=pre))
+    for (path_, hdr, a_t, vw) in [
+        (P_, "impl core::iter::Sum<Self> for Element", "Element", "views_e"),
+        (P_, "impl<'a> core::iter::Sum<&'a Element> for Element", "&'a Element", "views_er"),
+        (A_, "impl core::iter::Sum<AffinePoint> for Element", "AffinePoint", "views_a"),
+        (A_, "impl<'a> core::iter::Sum<&'a AffinePoint> for Element", "&'a AffinePoint", "views_ar"),
+    ]:
+        a_s = a_t.replace("'a ", "")
+        ens = f"exists|pa: Seq<P4>| #[trigger] sum_trace_e({vw}(iter_seq(iter)), pa, repr(r.inner))"
+        epi = f"""broadcast use fq_abs;
+            let s = iter_seq(iter);
+            let accs = choose|accs: Seq<Element>| fold_trace(s, <Element as Add<{a_s}>>::add, r_, accs) && repr(accs[0].inner) == id4();
+            let pa = accs.map_values(|e: Element| repr(e.inner));
+            let sv = {vw}(s);
+            assert forall|i: int| 0 <= i < sv.len() implies to_affine(#[trigger] pa[i + 1]) == to_affine(te_add(pa[i], sv[i])) by {{
+                assert(call_ensures(<Element as Add<{a_s}>>::add, (accs[i], s[i]), accs[i + 1]));
+            }}
+            assert(sum_trace_e(sv, pa, repr(r_.inner)));"""
+        items.append(Item(path_, hdr, [Fn("sum", ensures=ens, epilogue=epi, props=("C04",), attrs=R12, preamble=BUE,
+                                          subst=[("R6", r'\biter\s*\.\s*fold\s*\(', 'std_fold(iter, ')])],
+                          header_out=hdr.replace("core::iter::Sum", "Sum").replace("<Self>", "<Element>")))
+    E_ = ELEM
+    items.append(Item(E_, "impl Group for Element", [
+        Fn("generator", ensures="repr(r.inner) == gen_p4()", props=("C06",), preamble=BUE),
+        Fn("mul_bigint", ensures="repr(r.inner) == ark_mul(limbs_val(asref_seq(other)), repr(self.inner))", props=("C05",), preamble=BUE)],
+        header_out="impl Element"))
+    items.append(Item(E_, "impl CurveGroup for Element", [
+        Fn("into_affine", ensures="r.inner == of_aff(to_affine(repr(self.inner)))", props=("C06",), preamble=BUE)], header_out="impl Element"))
+    items.append(Item(E_, "impl AffineRepr for AffinePoint", [
+        Fn("zero", ensures="arepr(r.inner) == id4()", props=("C06",), preamble=BUE),
+        Fn("is_zero", ensures="r == spec_is_identity(arepr(self.inner))", props=("C08",), preamble=BUE),
+        Fn("generator", ensures="arepr(r.inner) == gen_p4()", props=("C06",), preamble=BUE + " assert(fmul(gen_p4().x, gen_p4().y) == gen_p4().t) by(compute_only);"),
+        Fn("from_random_bytes", ensures="match r { Some(p) => valid(arepr(p.inner)), None => true }", props=("C06",), preamble=BUE,
+           subst=[("R9", r'\|p\| AffinePoint \{', '|p: EdwardsAffine| -> (q: AffinePoint) ensures q.inner == of_aff(to_affine(te_add(arepr(p), arepr(p)))) { AffinePoint {'),
+                  ("R9", r'\(p \+ p\)\.into\(\),\s*\}\)', '(p + p).into(), } })')]),
+        Fn("mul_bigint", ensures="repr(r.inner) == ark_mul(limbs_val(asref_seq(other)), arepr(self.inner))", props=("C05",), preamble=BUE),
+        Fn("clear_cofactor", ensures="r == *self", props=("C06",), preamble=BUE),
+        Fn("mul_by_cofactor_to_group", ensures="r.inner == of_p4(arepr(self.inner))", props=("C06",), preamble=BUE)],
+        header_out="impl AffinePoint"))
+    u = Unit(name="ark_element", preludes=base_preludes() + [("curve_spec.rs", None), ("ark_ec.rs", None), ("ark_curve_misc.rs", None)],
+             items=items, lemmas=lem + CURVE_LEMMAS_E + OPS_LEMMAS.replace("impl Element { pub open spec fn p4(self) -> P4 { repr(self.inner) } }", "") + ELEMENT_LEMMAS, params=fq,
+             global_subst=[("R7", r'\bProjective<Decaf377EdwardsConfig>', 'EdwardsProjective'),
+                           ("R7", r'\bcore::hash::Hasher\b', 'Hasher')])
+    u.raw = [("src/error.rs", "enum", "EncodingError"), (ENC, "struct", "Encoding"),
+             ("src/ark_curve/element/projective.rs", "struct", "Element"), ("src/ark_curve/element/affine.rs", "struct", "AffinePoint")]
+    return u
+
+
+def conv_items_stub():
+    return [dataclasses.replace(it, mode="stub", proved_in="ark_ops", fns=[dataclasses.replace(f, preamble="") for f in it.fns])
+            for it in conv_items()]
